@@ -58,6 +58,10 @@ def gen_case(rng, nmax, quick_small=True):
     c["opts"] = {"labels": rng.choice([0, 1]), "sopt": 1 if rng.random() < 0.2 else 0, "S": 1 if rng.random() < 0.2 else 0}
     if rng.random() < 0.12:
         c["opts"]["pers"] = "pcp"       # pdcp personality: workers are _rcp_thread (same epilogue, own code)
+    if rng.random() < 0.3:
+        # descriptor NUMBERS: pdsh started with stdin closed (1) / stdin+stdout (3) / all of stdio (7) closed -- the
+        # transport hands out the lowest free number first, so connections get 0, 1, 2; rcmd_connect() == 0 is a success
+        c["opts"]["lowfds"] = rng.choice([1, 1, 1, 3, 7])
     return c
 
 
@@ -205,6 +209,10 @@ def explore_all(ctx, prop, exe_san, exe, variant, cov, dist):
             m = r["M"] or {}
             st = m.get("status", "crash")
             dist["status"][st] = dist["status"].get(st, 0) + 1
+            # connections that were handed descriptor number 0, 1 or 2 (pdsh started with stdio closed)
+            dist["connections_on_low_descriptors"] = dist.get("connections_on_low_descriptors", 0) + \
+                sum(1 for _, ev in r["steps"] if len(ev) > 1 and ev[1] == "connectEnd" and ev[-1] == "lowfd") + \
+                sum(1 for _, t in r["inline"] if len(t) > 1 and t[1] == "connectEnd" and t[-1] == "lowfd")
             if b is not None:
                 nwait = sum(1 for l in b if l == "ev D wait")
                 if int(m.get("n", 0)) >= 2 and nwait >= 1:
@@ -295,8 +303,8 @@ def explore_all(ctx, prop, exe_san, exe, variant, cov, dist):
             n = rng.randrange(2, 6)
             f = rng.randrange(1, n) if rng.random() < 0.85 else n
             keys = rng.choices(["ok", "ok2", "hang-after", "chatty", "chatty-odd", "chatty-ends", "outlives", "stubborn",
-                                "cmd-far", "cmd-over", "hang-connect", "refuse", "close-out-early", "silent"],
-                               [14, 6, 10, 8, 6, 5, 10, 10, 6, 4, 5, 4, 4, 4], k=n)
+                                "cmd-far", "cmd-over", "hang-connect", "refuse", "close-out-early", "silent", "lingers"],
+                               [14, 6, 10, 8, 6, 5, 10, 10, 6, 4, 5, 4, 4, 4, 6], k=n)
             c = T.mk_case([A[k] for k in keys], f, ct, ut, rng.random() < 0.4, rng.randrange(1, 1 << 30),
                           strategy=rng.choice(["uniform", "uniform", "starveD", "eagerD"]))
             c["timed"] = True
